@@ -40,6 +40,9 @@ func VerifH_C08_batcher() {
 	} else {
 		countLimit = 1 + vf.Choose("count", 2)
 	}
+	if vf.Param("trickle", 0) == 1 {
+		countLimit, bytesLimit = 10, 0 // never reached: only the flush timeout hands the batch over
+	}
 	K := vf.Param("KMIN", 1) + vf.Choose("events", vf.Param("K", 3)+1-vf.Param("KMIN", 1))
 	twin := vf.Param("twin", 0) == 1
 
